@@ -221,6 +221,25 @@ class Run(object):
                 d = self.state.build_circuit()
                 d.addCallbacks(self._wok, self._werr, callbackArgs=(x,), errbackArgs=(x,))
                 self.sim.pump()
+            elif a == "TimedBuild":
+                x = e["x"]
+                self.waits[x] = dict(k="tbuild", out="p", n=0, id=e["id"])
+
+                def answer(line, cid=e["id"]):
+                    self.lastline.pop(("c", cid), None)
+                    return ("250 EXTENDED %d\r\n" % cid).encode()
+                self.sim.handlers["EXTENDCIRCUIT"] = answer
+                from twisted.internet import task
+                from txtorcon.circuit import build_timeout_circuit
+                clock = task.Clock()
+                self.tclocks = getattr(self, "tclocks", {})
+                self.tclocks[x] = clock
+                d = build_timeout_circuit(self.state, clock, None, 30)
+                d.addCallbacks(self._wok, self._werr, callbackArgs=(x,), errbackArgs=(x,))
+                self.sim.pump()
+            elif a == "BuildTimeout":
+                self.tclocks[e["x"]].advance(31)
+                self.sim.pump()
             elif a == "Ack":
                 self.sim.release()
             elif a == "Nack":
